@@ -251,10 +251,10 @@ def jobs(tier, seed):
     # (c) reachable trees: statuses after real runs (stop/abort remainders, never-started features,
     #     de-selected elements, hook errors) satisfy the relation bottom-up; R is validated on them
     from props.c01 import _shapes, flag_shards
-    for name, shapes in _shapes(tier).items():
+    for name, (shapes, xo) in _shapes(tier).items():
         for fname, fopts in flag_shards(tier):
             js.append(Job("c.run.%s%s" % (name, fname), "vlib.stage1:h_stage1",
-                          {"shapes": shapes, "opts": fopts, "checks": ["rollup"]},
+                          {"shapes": shapes, "opts": dict(fopts, **xo), "checks": ["rollup"]},
                           reach=["C03.rollup(feature)", "C03.rollup(scenario)", "C03.R-covers-reachable(steps)"],
                           min_paths=5, cost=5000, validate=100 if tier == "quick" else 300))
     from vlib.shapes import F, S, O, R
